@@ -185,7 +185,9 @@ theorem recv_history_total_full_object_model (cfg : Config) (ops : List Op) (hop
      `push_no_hang` / `attach_no_hang`); one call preserves "no fault" under them
      (`full_push_no_fault`, `full_attach_no_fault`); the lift of "no fault" to an invariant of `step`
      (an `AllObj` chain like `step_all`) is NOT done.
-   * the object inside an `FdtReceiver` (TOI 0) is the small `Mini` object in every instantiation.
+   * (closed since) the object inside an `FdtReceiver` (TOI 0) is an `ObjRecv` object too in `Full.iface`
+     (`Full.push0`; one-call form `full_push0_no_fault_tinv`; invariant: C04Whole `reachable_fdt_objects_healthy`;
+     at the MultiReceiver: Props/C04MultiWhole.lean `multi_push_total_whole`).
    * the XML parser is an oracle input (`ans : FdtAns`, any value), the clock hypothesis `TimeSane`.
    * allocation: see `alloc_bounded` for what is and what is not bounded. -/
 
@@ -266,8 +268,8 @@ theorem full_attach_never_hangs (o : Full.Obj) (id : Nat) (f : Option ObjRecv.Fi
 
 /-- under lemma 1 a push never sets the fault flag -/
 theorem full_push_no_fault (h : ObjPushTotal) (o : Full.Obj) (p : Pkt) (ho : o.fault = false) :
-    (Full.push o p).1.fault = false := by
-  unfold Full.push
+    (Full.pushN o p).1.fault = false := by
+  unfold Full.pushN
   rw [if_neg (by rw [ho]; simp)]
   split
   · rename_i w hw
@@ -314,15 +316,57 @@ theorem toPkt_wf (p : Pkt) (h : ∀ f, p.fti = some f → f.len < 2 ^ 48 ∧ f.o
 /-- **one push of the full object model never faults** on a `TInv` state, and keeps `TInv` -/
 theorem full_push_no_fault_tinv (o : Full.Obj) (p : Pkt) (ho : o.fault = false) (hT : ObjRecv.TInv o.st)
     (hp : ∀ f, p.fti = some f → f.len < 2 ^ 48 ∧ f.oti.esl < 2 ^ 16) :
-    (Full.push o p).1.fault = false ∧ ObjRecv.TInv (Full.push o p).1.st := by
+    (Full.pushN o p).1.fault = false ∧ ObjRecv.TInv (Full.pushN o p).1.st := by
   obtain ⟨st', hst', hT'⟩ := ObjRecv.tinv_push Full.params fullDzOK hT (Full.toPkt p) (toPkt_wf p hp)
-  unfold Full.push
+  unfold Full.pushN
   rw [if_neg (by rw [ho]; simp)]
   split
   · rename_i w hw; rw [hst'] at hw; cases hw
   · rename_i st'' hw
     rw [hst'] at hw; injection hw with hw; subst hw
     exact ⟨ho, hT'⟩
+
+/-- the entry that stands for the EXT_FTI of an FDT packet has the wire ranges -/
+theorem fdtEntry0_wf (p : Pkt) (hp : ∀ f, p.fti = some f → f.len < 2 ^ 48 ∧ f.oti.esl < 2 ^ 16) (id : Nat) :
+    ObjRecv.WfOp (.attach id (Full.fdtEntry0 (Full.toPkt p))) := by
+  have hw := toPkt_wf p hp
+  unfold Full.fdtEntry0
+  cases hf : (Full.toPkt p).fti with
+  | none => simp only [Option.map_none]; exact trivial
+  | some x =>
+    obtain ⟨o, l⟩ := x
+    simp only [Option.map_some]
+    have := hw o l hf
+    exact ⟨this.1, fun o' ho' => by simp only [Option.some.injEq] at ho'; subst ho'; exact this.2⟩
+
+/-- **one push of a TOI-0 packet into the FDT object (full object model) never faults** on a `TInv`
+    state, and keeps `TInv` -/
+theorem full_push0_no_fault_tinv (o : Full.Obj) (p : Pkt) (ho : o.fault = false) (hT : ObjRecv.TInv o.st)
+    (hp : ∀ f, p.fti = some f → f.len < 2 ^ 48 ∧ f.oti.esl < 2 ^ 16) :
+    (Full.push0 o p).1.fault = false ∧ ObjRecv.TInv (Full.push0 o p).1.st := by
+  obtain ⟨st1, b, h1, hT1⟩ := ObjRecv.tinv_attachFdt Full.params fullDzOK hT (p.fdtId.getD 0)
+    (Full.fdtEntry0 (Full.toPkt p)) (fdtEntry0_wf p hp _)
+  obtain ⟨st', h2, hT'⟩ := ObjRecv.tinv_push Full.params fullDzOK hT1 (Full.toPkt p) (toPkt_wf p hp)
+  unfold Full.push0
+  rw [if_neg (by rw [ho]; simp)]
+  split
+  · rename_i w hw; rw [h1] at hw; cases hw
+  · rename_i s1 b' hw
+    rw [h1] at hw; injection hw with hw; injection hw with hw1 hw2; subst hw1
+    split
+    · rename_i w hw'; rw [h2] at hw'; cases hw'
+    · rename_i s2 hw'
+      rw [h2] at hw'; injection hw' with hw'; subst hw'
+      exact ⟨ho, hT'⟩
+
+/-- both cases: `Full.push` -/
+theorem full_push_any_no_fault_tinv (o : Full.Obj) (p : Pkt) (ho : o.fault = false) (hT : ObjRecv.TInv o.st)
+    (hp : ∀ f, p.fti = some f → f.len < 2 ^ 48 ∧ f.oti.esl < 2 ^ 16) :
+    (Full.push o p).1.fault = false ∧ ObjRecv.TInv (Full.push o p).1.st := by
+  unfold Full.push
+  split
+  · exact full_push0_no_fault_tinv o p ho hT hp
+  · exact full_push_no_fault_tinv o p ho hT hp
 
 /-- a fresh object meets `TInv` (cache limit below 2^63) -/
 theorem full_new_tinv (toi maxCache : Nat) (hm : maxCache < 2 ^ 63) :
